@@ -605,6 +605,58 @@ class _Tee(ToolBase):
         return driver()
 
 
+@_reg(TOOLS, "groupby")
+class _GroupBy(ToolBase):
+    """groupby flattened by a seeded consumption pattern: ('key', k) then up to `peek` items of each group"""
+
+    def gen(self, g):
+        items = g.items()
+        key = g.keyfn()
+        peeks = tuple(g.ch.draw(4) for _ in range(4))  # 3 = the whole group
+        return Spec("groupby", [g.src(items)], [key], {"peeks": peeks})
+
+    def a(self, L, spec, S, F):
+        gb = L.groupby(S[0], F[0]) if F[0] is not None else L.groupby(S[0])
+        peeks = spec.p["peeks"]
+
+        async def driver():
+            n = 0
+            try:
+                async for key, group in gb:
+                    yield ("key", key)
+                    peek = peeks[n % 4]
+                    n += 1
+                    taken = 0
+                    async for item in group:
+                        yield item
+                        taken += 1
+                        if peek < 3 and taken >= peek:
+                            break
+            finally:
+                await gb.aclose()
+
+        return driver()
+
+    def r(self, spec, S, F):
+        gb = itertools.groupby(S[0], F[0]) if F[0] is not None else itertools.groupby(S[0])
+        peeks = spec.p["peeks"]
+
+        def driver():
+            n = 0
+            for key, group in gb:
+                yield ("key", key)
+                peek = peeks[n % 4]
+                n += 1
+                taken = 0
+                for item in group:
+                    yield item
+                    taken += 1
+                    if peek < 3 and taken >= peek:
+                        break
+
+        return driver()
+
+
 TOOL_NAMES = tuple(TOOLS)
 
 
